@@ -22,12 +22,18 @@ shape by general, semantics-preserving rules (nothing here looks at the text of 
   flatten    `if c: <ends in raise/return> else: R` becomes `if c: ...` followed by R (guard clause form); the mirrored form
              with the terminating branch in the else becomes `if not c: ...` followed by the other branch
   default    `x = e1` directly followed by `if c: x = e2` (e1 a plain name / constant - something that cannot raise)
-             becomes `if c': x = e2' else: x = e1` with x replaced by e1 in c and e2
+             becomes `if c': x = e2' else: x = e1` with x replaced by e1 in c and e2; the overriding assignment may sit in
+             `try: x = e2 except ...: <ends in raise>` (handlers that do not read x): the try moves into the branch with it
   temp       `x = E` directly followed by `return x` / `t = x` (x not used again) becomes `return E` / `t = E`; a call-free
-             E used once in the directly following simple, call-free statement is substituted there
+             E used once in the directly following simple, call-free statement is substituted there; ANY E (calls too) is
+             folded into the directly following return / assignment / expression statement when its single use is
+             evaluated unconditionally and before everything else of that statement except constants and lookups of
+             names / attribute chains that are not rooted at a local or parameter (`np.random.binomial`, a module-level
+             function): the order of all effects is then unchanged
   alias      a local bound exactly once, at the top level of the function, to a name, a constant, an attribute chain or an
-             arithmetic / comparison expression over names and constants (then only if the local is never mutated or handed
-             to a call) is replaced by that expression at every later use that no intervening statement can have made stale (a store to
+             arithmetic / comparison expression over names and constants or a (nested) list / tuple display of such (then
+             only if the local is never mutated, compared by identity or handed to a call other than the known pure ones)
+             is replaced by that expression at every later use that no intervening statement can have made stale (a store to
              any part of the chain or to one of its names, or - for attribute chains - any call that is not a known pure
              function, kills the alias: the remaining uses keep the local's name and the extraction fails closed on them);
              the assignment is dropped when no use is left
